@@ -46,7 +46,7 @@ example : IsB64 (b "QQ==") [0x41] 0 ∧ IsB64 (b "QR==") [0x41] 1 := by
 
 /-! ## acceptance -/
 
-/-- `bin_accept_iff`: a lexical value `s` is stored as the value `v` ⇔ the hints admit a string-encoded value, AND — after the only white
+/-- `bin_accept_iff`: a lexical value `s` is stored as the value `v` ⇔ the hints allow a string-encoded value, AND — after the only white
     space the plug-in removes: the newlines of a value laid out in lines of exactly 64 bytes, looked for only when byte 64 is a newline —
     the text `v.canon` is base64 of RFC 4648 §4 for the octets `v.data`: alphabet characters, length a multiple of four, `=` / `==` only as
     the padding of the last group; the surplus bits `k` of the last sextet are NOT required to be zero; AND the number of OCTETS is inside
